@@ -247,7 +247,7 @@ pub fn run_history_property<H: HB>(prop: &'static str, tier: Tier) -> Outcome {
         "C02" => vec![true],
         _ => vec![false, true],
     };
-    let full = A_CORE | A_BULK | A_CLONE;
+    let full = A_CORE | A_BULK | A_CLONE | A_PEEK_MUT;
     let (alpha, k, m): (u32, u32, usize) = match prop {
         // order properties: the whole mutator alphabet (conversion pulls in the other kind)
         "C01" | "C02" => (full, if q { 3 } else { 4 }, 3),
